@@ -320,6 +320,7 @@ func (i *Interpreter) eval(expr ast.Expr, env *environment.Environment, isRepl b
 			return nil, &ControlFlowSignal{Type: ControlFlowNone, LineNumber: 0} // Stop execution if a runtime error occurred during evaluation
 		}
 
+		utils.VerifEmit("print", value)
 		if val, ok := value.([]rune); ok {
 			s := string(val)
 			fmt.Println(norm.NFC.String(s))
@@ -336,6 +337,7 @@ func (i *Interpreter) eval(expr ast.Expr, env *environment.Environment, isRepl b
 			return nil, signal
 		}
 		if isRepl && !utils.HadRuntimeError {
+			utils.VerifEmit("echo", value)
 			if val, ok := value.([]rune); ok {
 				fmt.Println(string(val))
 			} else {
